@@ -1,6 +1,7 @@
 import SigpyVerif.Model.Py
 import SigpyVerif.Model.Proto
+import SigpyVerif.Model.C01Proto
 namespace SigpyVerif.Drv.C01
 /-- protocol handler for property C01 (tokens after the property id). -/
-def handle (_toks : List String) : String := "err bad-op"
+def handle (toks : List String) : String := SigpyVerif.C01.Proto.handle toks
 end SigpyVerif.Drv.C01
